@@ -71,6 +71,10 @@ def body(ctx):
                              dict(api='shell', decode=False, cmd='r', chunks=[b'x'.hex()], refuse=True, read_timeout_s=1.0),
                              dict(api='reboot', fastboot=bool(k % 2)),
                              dict(api='shell', decode=False, cmd='after', chunks=[b''.hex(), b'ok'.hex()])]))
+    # destinations of every length around 4 KiB (the OPEN payload is the destination plus its NUL, whatever its length)
+    for n_ in (4080, 4088, 4089, 4090, 4095, 4096, 4097, 5000, 70000):
+        fam.append(dict(seed=ctx.seed + 700 + n_, maxdata=1024 * 1024, rid='plus', frag='whole',
+                        ops=[dict(api=('shell', 'exec_out', 'streaming_shell')[n_ % 3], decode=False, cmd='x' * n_, chunks=[b'ok'.hex()])]))
     specs = fam + specs
     corpus = scen.run_corpus(specs)
     traces = [c[3] for c in corpus]
